@@ -359,6 +359,35 @@ impl<K: HKey> Session<K> {
                 },
                 None => "nostats".into(),
             },
+            ["delete_orphan", h] => match self.stats.as_ref() {
+                Some(s) => match cassadilia::BlobHash::from_hex(h) {
+                    Ok(hash) => match s.delete_orphan(&hash) { Ok(b) => format!("{b}"), Err(e) => format!("err {}", classify(&e)) },
+                    Err(_) => "badhash".into(),
+                },
+                None => "nostats".into(),
+            },
+            ["quarantine"] => match self.stats.as_ref() {
+                Some(s) => {
+                    // outside the database directory: for the store the blobs are gone
+                    let q = self.dir.with_extension("quarantine");
+                    let r = match s.quarantine_orphans(&q) {
+                        Ok(r) => format!("quarantined={} skipped={} errors={}", r.orphans_quarantined, r.orphans_skipped, r.errors.len()),
+                        Err(e) => format!("err {}", classify(&e)),
+                    };
+                    let _ = std::fs::remove_dir_all(&q);
+                    r
+                }
+                None => "nostats".into(),
+            },
+            ["idxq", k] => {
+                let g = cas!().read_index_state();
+                let kk = key(k);
+                let it = g.get_item(&kk);
+                let req = g.require_item(&kk);
+                let item = match &req { Ok(i) => format!("{}:{}", hx(i.blob_hash.as_bytes()), i.blob_size), Err(_) => "notfound".into() };
+                let known = it.as_ref().map(|i| g.contains_blob_hash(&i.blob_hash)).unwrap_or(false);
+                format!("contains={} item={} empty={} len={} hashknown={} keys={}", g.contains_key(&kk), item, g.is_empty(), g.len(), known, g.keys_snapshot().len())
+            }
             ["orphans"] => match self.stats.as_ref() {
                 Some(s) => {
                     let mut o: Vec<String> = s.orphaned_blobs.iter().map(|h| hx(h.as_bytes())).collect(); o.sort();
